@@ -97,6 +97,31 @@ func emptyMeetsEmpty(names, vals []string) bool {
 	return hasEmpty && other
 }
 
+func dedupStrings(l []string) []string {
+	seen := map[string]bool{}
+	var out []string
+	for _, x := range l {
+		if !seen[x] {
+			seen[x] = true
+			out = append(out, x)
+		}
+	}
+	return out
+}
+
+// valuesOfDedup: the values kept by stage 1 (first occurrence of every name).
+func valuesOfDedup(names, vals []string) []string {
+	seen := map[string]bool{}
+	var out []string
+	for i, n := range names {
+		if !seen[n] && i < len(vals) {
+			seen[n] = true
+			out = append(out, vals[i])
+		}
+	}
+	return out
+}
+
 // nameChainInvalid: some name goes through SchemaNameToTypeName, SanitizeGoIdentity and SchemaNameToTypeName again to
 // the empty string or to a text starting with a digit (an underscore hiding a leading digit: _1, _12).
 func nameChainInvalid(names []string) bool {
@@ -135,6 +160,36 @@ func runC11(r *Report, rng *rand.Rand, thorough bool) {
 		}
 		lists = append(lists, l)
 	}
+	chcases := NewCases("cases_C11_chain", "From V Require Import Model.Names Corr.Eval.", "string * list N", "mismatches_enum_chain")
+	chainSeen := map[string]bool{}
+	addChain := func(n string) {
+		if chainSeen[n] || !allCoqSafe(n) {
+			return
+		}
+		for _, c := range n {
+			if c >= 128 {
+				return
+			}
+		}
+		chainSeen[n] = true
+		f := codegen.SchemaNameToTypeName(codegen.SanitizeGoIdentity(codegen.SchemaNameToTypeName(n)))
+		var codes []string
+		for _, c := range f {
+			codes = append(codes, fmt.Sprintf("%d%%N", c))
+		}
+		chcases.Add(fmt.Sprintf("(%s, [%s])", gendoc.CoqStr(n), strings.Join(codes, "; ")), map[string]any{"name": n})
+	}
+	for _, n := range enumAlphabet {
+		addChain(n)
+	}
+	for i := 0; i < nLists; i++ { // random ASCII names
+		var b []byte
+		for j := 0; j < 1+rng.Intn(6); j++ {
+			b = append(b, "aZ09_-. $+&xY1"[rng.Intn(14)])
+		}
+		addChain(string(b))
+	}
+	chcases.WriteTo(r)
 	for _, vals := range lists {
 		names := vals
 		got := codegen.SanitizeEnumNames(names, vals)
@@ -181,6 +236,7 @@ func runC11(r *Report, rng *rand.Rand, thorough bool) {
 
 	// ---- end to end: constants of generated files
 	ccases := NewCases("cases_C11_constants", "From V Require Import Model.Enum Corr.Eval.", "list (string * string) * list (string * string) * list string * list string * list (string * string)", "mismatches_constants")
+	ocases := NewCases("cases_C11_constants_old", "From V Require Import Model.Enum Corr.Eval.", "list (string * string) * list (string * string) * list string * list string * list (string * string)", "mismatches_constants_old")
 	lcases := NewCases("cases_C11_literal", "From V Require Import Model.Enum Corr.Eval.", "string * string", "mismatches_literal")
 	nDocs := 40
 	if thorough {
@@ -410,6 +466,37 @@ func runC11(r *Report, rng *rand.Rand, thorough bool) {
 			r.Violate(sig, fmt.Sprintf("%s enum %q (%s): constants %v: %s", pos, specVals, optLabel, obs, strings.Join(problems, "; ")), replay)
 			continue
 		}
+		// model tie of the old-enum-conflicts arm (component position: the path is the component's name)
+		if base == "string" && optLabel == "old-enum-conflicts" && pos == "component" && ok2 && allCoqSafe(specVals...) && allCoqSafe(names...) && len(names) == len(specVals) {
+			norm, pathT := map[string]string{}, map[string]string{}
+			for _, n := range names {
+				norm[n] = codegen.SanitizeGoIdentity(codegen.SchemaNameToTypeName(n))
+			}
+			k2, _, _ := enumGuard(names)
+			pathname := func(x string) string {
+				return codegen.SchemaNameToTypeName(codegen.PathToTypeName([]string{"Color", x}))
+			}
+			okSafe, finals := true, map[string]bool{}
+			dn := dedupStrings(names)
+			dv := valuesOfDedup(names, specVals)
+			for i, k := range k2 {
+				x := k
+				if i < len(dv) && dv[i] == "" {
+					x = "Empty"
+				}
+				pathT[x] = pathname(x)
+				okSafe = okSafe && allCoqSafe(x, pathT[x]) && !finals[pathT[x]]
+				finals[pathT[x]] = true
+			}
+			_ = dn
+			for _, p := range obs {
+				okSafe = okSafe && allCoqSafe(p[0], p[1])
+			}
+			// a final name equal to a type name of the package makes the conflict pass prefix the whole enum (C11 cross family)
+			if okSafe && !finals["Color"] && !finals["Other"] {
+				ocases.Add(fmt.Sprintf("(%s, %s, %s, %s, %s)", coqTable(norm), coqTable(pathT), gendoc.CoqStrList(names), gendoc.CoqStrList(specVals), coqPairs(obs)), replay)
+			}
+		}
 		// model tie (default options, string enums, collision-free, top-level naming rule)
 		if base == "string" && optLabel == "default" && ok2 && ok3 && allCoqSafe(specVals...) && allCoqSafe(names...) {
 			norm, norm2 := map[string]string{}, map[string]string{}
@@ -431,6 +518,7 @@ func runC11(r *Report, rng *rand.Rand, thorough bool) {
 		}
 	}
 	ccases.WriteTo(r)
+	ocases.WriteTo(r)
 	lcases.WriteTo(r)
 	runC11Cross(r, rng, thorough)
 	r.Rule = "cross-enum: 2-4 top-level string enums and 0-2 other types over a small alphabet of type names and values (values meeting across enums, meeting prefixed names, type names and the own type name; three fixed shapes) x always-prefix, generated; which enums were prefixed vs the model of the conflict pass in Coq, all constant names distinct (oracle); function level: value lists over an adversarial alphabet (empty, whitespace, case / punctuation variants, leading digits, keywords, predeclared names, quotes, backslashes, tabs, newlines, non-ASCII, duplicates) through SanitizeEnumNames vs the model; end to end: string and integer enums in six positions (component, property, parameter, array item, request body, response) x {default, always-prefix-enum-values, old-enum-conflicts}, generated, parsed; every constant of the enum's type read back (strconv.Unquote of the emitted literal) and compared with the specification's values (exactly one constant per distinct value), names pairwise distinct in the file; non-trivial = at least two distinct values"
